@@ -3,6 +3,9 @@
 package groups
 
 import (
+	"math/big"
+
+	"go.dedis.ch/kyber/v4"
 	"go.dedis.ch/kyber/v4/group/edwards25519"
 	"go.dedis.ch/kyber/v4/group/edwards25519vartime"
 	"go.dedis.ch/kyber/v4/group/p256"
@@ -63,5 +66,21 @@ func All() []*Info {
 		&Info{Name: "gnark-gt", Family: "bls12381", Sort: "GT", Group: gs.GT(), Order: OrderBLS, ScalarTy: "gnark", CanBase: true, Slow: true, Suite: gs, SuiteKey: "gnark"},
 	)
 	return out
+}
+
+// Adapters returns the suite-as-group adapters (suites.Suite implementations
+// whose Point() is the key group G2 of a pairing suite). They advertise their
+// own PointLen/ScalarLen and are exercised by the encoding check (C03).
+func Adapters() []*Info {
+	mk := func(name, fam string, g kyber.Group, q *big.Int, sty string) *Info {
+		return &Info{Name: name, Family: fam, Sort: "G2", Group: g, Order: q, ScalarTy: sty, CanBase: true, CanPick: true, Adapter: true}
+	}
+	return []*Info{
+		mk("bn256-adapter", "bn256", bn256.NewSuiteBn256(), OrderBN256, "modint-bn256"),
+		mk("bn254-adapter", "bn254", bn254.NewSuiteBn254(), OrderBN254, "modint-bn254"),
+		mk("kilic-adapter", "bls12381", kilic.NewSuiteBLS12381(), OrderBLS, "modint-bls"),
+		mk("circl-adapter", "bls12381", circl.NewSuiteBLS12381(), OrderBLS, "circl"),
+		mk("gnark-adapter", "bls12381", gnark.NewSuiteBLS12381(), OrderBLS, "gnark"),
+	}
 }
 
